@@ -446,6 +446,16 @@ func c16Exec(t *testing.T, sc *gen.Scenario, trace bool) *harness.Outcome {
 							simrt.Probe("answer_from_older_state_of_same_store")
 						}
 					}
+					if v != nil && len(tst.states) > 0 && (rq.Kind == "listobjects" || rq.Kind == "listusers") {
+						// A list answer assembled from cached sub-results may mix states of the same store
+						// (one branch served from before a write, another computed after it). Element-wise:
+						// every returned element must be permitted in SOME state of this store, and every
+						// element permitted in ALL of them must be present (ListObjects only).
+						if mixedListAnswerOK(sc, tst, rq, a) {
+							v = nil
+							simrt.Probe("list_answer_mixes_states_of_same_store")
+						}
+					}
 					if v != nil {
 						expl := ""
 						for _, o := range stores {
@@ -626,4 +636,65 @@ func renderAsserts(as []*openfgav1.Assertion) string {
 		parts = append(parts, fmt.Sprintf("%s#%s@%s=%v", a.GetTupleKey().GetObject(), a.GetTupleKey().GetRelation(), a.GetTupleKey().GetUser(), a.GetExpectation()))
 	}
 	return strings.Join(parts, ";")
+}
+
+
+// mixedListAnswerOK: see the call site.
+func mixedListAnswerOK(sc *gen.Scenario, st *c16Store, rq gen.Request, a anyAns) bool {
+	var got []string
+	if a.s != "" {
+		got = strings.Split(a.s, ",")
+	}
+	states := append(append([][]rm.Tuple(nil), st.states...), st.cur)
+	switch rq.Kind {
+	case "listobjects":
+		mayAny := map[string]bool{}
+		mustAll := map[string]int{}
+		for _, tuples := range states {
+			ref := rm.NewState(st.model, append(append([]rm.Tuple(nil), tuples...), rq.CtxTuples...))
+			if rm.IsUserset(rq.User) {
+				ref.WithExtra(rm.UserObject(rq.User))
+			}
+			must, may, _, _ := ref.ListObjectsSuper(rq.Type, rq.Rel, rq.User, rq.Ctx)
+			for _, o := range may {
+				mayAny[o] = true
+			}
+			for _, o := range must {
+				mustAll[o]++
+			}
+		}
+		seen := map[string]bool{}
+		for _, o := range got {
+			if !mayAny[o] || seen[o] {
+				return false
+			}
+			seen[o] = true
+		}
+		for o, n := range mustAll {
+			if n == len(states) && !seen[o] {
+				return false
+			}
+		}
+		return true
+	case "listusers":
+		// soundness only: each returned concrete user must hold the relation in some state
+		for _, u := range got {
+			if rm.IsWildcard(u) || rm.IsUserset(u) {
+				continue
+			}
+			ok := false
+			for _, tuples := range states {
+				ref := rm.NewState(st.model, append(append([]rm.Tuple(nil), tuples...), rq.CtxTuples...))
+				if sup := ref.CheckSuper(rq.Obj, rq.Rel, u, rq.Ctx); sup.CanBeTrue {
+					ok = true
+					break
+				}
+			}
+			if !ok {
+				return false
+			}
+		}
+		return true
+	}
+	return false
 }
